@@ -117,6 +117,7 @@ pub fn migrate_step(
         None => "no_version",
         Some(VersionClass::Malformed) => "malformed",
         Some(VersionClass::PreOrBuild) => "prerelease",
+        Some(VersionClass::PreReleaseBelowMin) => "prerelease_below_minimum",
         Some(VersionClass::Triple(a, b, c)) => {
             if (a, b, c) < (0, 16, 2) {
                 "below_minimum"
